@@ -40,7 +40,7 @@ for cpuname, (unit, maxlen, unw, tier, tables, two) in CPUS.items():
                         functions=[("disasm_%s" % cpu, "disasm/%s.cpp" % cpu, "harness; table scans closed by unwinding %d with unwinding assertions" % unw),
                                    ("table_%s[]" % cpu, "table/%s.cpp" % cpu, "data")],
                         defines=defs, unwind=unw, checks=CH, timeout=(2400 if two else 900), mem_gb=(30 if two else 10), tier=tier, extra_cbmc=(["--object-bits", "14"] if two else [])))
-for cpu, unit, maxlen, note in (("tms9900", 2, 6, "discharged by C08/disasm_tms9900"), ("6800", 1, 3, "discharged by C08/disasm_6800"), ("68hc08", 1, 4, "discharged by C08/disasm_68hc08"), ("6809", 1, 5, "ASSUMED: C08/disasm_6809 does not finish")):
+for cpu, unit, maxlen, note in (("tms9900", 2, 6, "discharged by C08/disasm_tms9900"), ("6800", 1, 3, "discharged by C08/disasm_6800"), ("68hc08", 1, 4, "discharged by C08/disasm_68hc08"), ("6809", 1, 5, "ASSUMED: C08/disasm_6809 does not finish"), ("z80", 1, 4, "ASSUMED: C08/disasm_z80 does not finish")):
     GROUPS.append(Group(name="C08/disasm_range_%s" % cpu, unity="C08/u_range.cpp", entry="h_range",
                         functions=[("disasm_range_%s" % cpu, "disasm/%s.cpp" % cpu, "harness+2 loop-contracts, any range (function text extracted verbatim)"), ("disasm_%s" % cpu, "disasm/%s.cpp" % cpu, "replaced by its contract (length %d..%d), %s" % (unit, maxlen, note))],
                         defines=["UNIT=%d" % unit, "MAXLEN=%d" % maxlen, "RANGEFN=disasm_range_%s" % cpu, "DISFN=disasm_%s" % cpu, "DISHDR=disasm/%s.h" % cpu, "RANGEINC=gen/disasm_range_%s.inc" % cpu],
